@@ -249,6 +249,22 @@ def cpu_min(ctx):
     ctx.check("_cpu_count_affinity(os_cpu_count)" in atoms, rets[0], "the minimum honours CPU affinity", "CPU affinity is no longer part of the minimum: %s" % atoms)
     ctx.check(any("LOKY_MAX_CPU_COUNT" in a and a.startswith("int(os.environ.get(") for a in atoms), rets[0], "the minimum honours LOKY_MAX_CPU_COUNT", "LOKY_MAX_CPU_COUNT is no longer part of the minimum: %s" % atoms)
     ctx.check("_cpu_count_cgroup(os_cpu_count)" in atoms, rets[0], "the minimum honours the cgroup quota")
+    cgf = ctx.repo.func(CTXF, "_cpu_count_cgroup")
+    gcg = cfg_of(cgf)
+    from ..core import cond_facts
+    for r_ in nodes_of_type(cgf, ast.Return):
+        fc = [x for x in cond_facts(gcg.conditions_at(gcg.nodes_of(r_))) if "cpu_quota_us" in x[0] and "cpu_period_us" not in x[0]]
+        if unparse(r_.value) == "os_cpu_count" and ("cpu_quota_us == 'max'", True) in fc:
+            ctx.ok(r_, "no cgroup quota ('max') => the OS count")
+        elif unparse(r_.value) == "os_cpu_count":
+            ctx.check(("cpu_quota_us == 'max'", False) in fc, r_, "a non-positive quota disables the limit")
+        else:
+            ctx.check(("cpu_quota_us == 'max'", False) in fc and "cpu_quota_us / cpu_period_us" in unparse(r_.value) and call_name(r_.value) == "math.ceil", r_, "a numeric quota bounds the count by ceil(quota / period)",
+                      "the cgroup bound is returned as %s under %s" % (unparse(r_.value), fc))
+    for c_ in calls_in(cgf):
+        if call_name(c_) == "int" and c_.args and dotted(c_.args[0]) in ("cpu_quota_us", "cpu_period_us"):
+            fc = cond_facts(gcg.conditions_at(gcg.nodes_of(c_)))
+            ctx.check(("cpu_quota_us == 'max'", False) in fc, c_, "the quota is parsed as a number only when it is not 'max'", "int(%s) is evaluated under %s: without a cgroup quota cpu_count() raises ValueError" % (dotted(c_.args[0]), fc))
     af = ctx.repo.func(CTXF, "_cpu_count_affinity")
     ok = any(isinstance(r.value, ast.Call) and unparse(r.value) == "len(os.sched_getaffinity(0))" for r in nodes_of_type(af, ast.Return))
     ctx.check(ok, af, "_cpu_count_affinity returns len(os.sched_getaffinity(0)) when available")
